@@ -22,6 +22,14 @@ func init() {
 		Spaces: c19Spaces})
 }
 
+// c19R appends a suffix to violation keys.
+type c19R struct {
+	r  *fw.R
+	kx string
+}
+
+func (c c19R) Fail(key, format string, args ...any) { c.r.Fail(key+c.kx, format, args...) }
+
 type c19name struct {
 	labels [][]byte
 	s      string // library presentation form, fully qualified
@@ -71,7 +79,11 @@ func c19LabelSet(alpha []byte, maxLen int) [][]byte {
 	return out
 }
 
-func c19Unary(r *fw.R, labels [][]byte, s string) {
+func c19Unary(r *fw.R, labels [][]byte, s string) { c19UnaryKeyed(r, labels, s, "") }
+
+// c19UnaryKeyed: kx is appended to the violation keys (the other-spelling space keeps its own classes).
+func c19UnaryKeyed(r0 *fw.R, labels [][]byte, s string, kx string) {
+	r := c19R{r0, kx}
 	p := rn.Parse(s)
 	if !p.OK || !rn.Equal(p.Labels, labels) {
 		r.Fail("c03-presentation", "presentation %q does not denote labels %q", s, labels)
@@ -243,6 +255,73 @@ func c19Spaces(c *fw.Ctx) {
 						}
 					}
 					r.Count("pairs", 256)
+				})
+			}
+		})
+
+	// ---------------------------------------------------------------- other spellings of the same names
+	// The spaces above spell every name as the library's unpacker does. The parser accepts more: any octet
+	// as \DDD, any non-digit octet as \c, octets ≥ 0x80 raw. Helpers must follow the labels, not the text.
+	spell := func(b byte) []string {
+		out := []string{fmt.Sprintf("\\%03d", b)}
+		if b != '.' && b != '\\' {
+			out = append(out, string([]byte{b}))
+		}
+		if b < '0' || b > '9' {
+			out = append(out, "\\"+string([]byte{b}))
+		}
+		return out
+	}
+	var spellLabel func(l []byte) []string
+	spellLabel = func(l []byte) []string {
+		if len(l) == 0 {
+			return []string{""}
+		}
+		var out []string
+		for _, h := range spell(l[0]) {
+			for _, t := range spellLabel(l[1:]) {
+				out = append(out, h+t)
+			}
+		}
+		return out
+	}
+	setS := c19LabelSet([]byte{'a', 'A', '.', 0xe9}, 2) // 20 labels
+	type spelled struct {
+		labels [][]byte
+		s      string
+	}
+	var sp []spelled
+	for _, l := range setS {
+		for _, t := range spellLabel(l) {
+			sp = append(sp, spelled{[][]byte{l, []byte("nl")}, t + ".nl."})
+		}
+	}
+	c.Space("spellings", fmt.Sprintf("%d spellings of the 20 names L.nl. with L of ≤2 octets from {a, A, '.', 0xe9}: every octet as \\DDD, as \\c and literally (raw for 0xe9): the unary helpers on each (with and without the final dot), CompareDomainName / IsSubDomain on all ordered pairs against the labels; non-trivial: the spelling is not the unpacker's", len(sp)), true,
+		func(emit func(func(*fw.R))) {
+			for i := range sp {
+				a := sp[i]
+				emit(func(r *fw.R) {
+					if lib, _, err := dns.UnpackDomainName(rn.Wire(a.labels), 0); err == nil && lib != a.s {
+						r.Nontrivial()
+					}
+					fails := 0
+					sub := &fw.R{}
+					_ = sub
+					c19UnaryKeyed(r, a.labels, a.s, "/other-spelling")
+					c19UnaryKeyed(r, a.labels, a.s[:len(a.s)-1], "/other-spelling")
+					for j := range sp {
+						b := sp[j]
+						want := rn.CommonSuffix(a.labels, b.labels)
+						if got := dns.CompareDomainName(a.s, b.s); got != want && fails < 3 {
+							fails++
+							r.Fail("CompareDomainName/other-spelling", "CompareDomainName(%q, %q) = %d, reference %d (labels %q / %q)", a.s, b.s, got, want, a.labels, b.labels)
+						}
+						if got := dns.IsSubDomain(a.s, b.s); got != (want == len(a.labels)) && fails < 3 {
+							fails++
+							r.Fail("IsSubDomain/other-spelling", "IsSubDomain(%q, %q) = %v, reference %v", a.s, b.s, got, want == len(a.labels))
+						}
+					}
+					r.Count("pairs", int64(len(sp)))
 				})
 			}
 		})
